@@ -48,7 +48,7 @@ def run(ctx):
     if not vc.prepare(ctx, 'C18'):
         return rep.finish({'evaluations': 0, 'distinct_nontrivial': 0, 'rule': 'harness did not build', 'samples': []}, [])
     quick = ctx.tier == 'quick'
-    n = 1200 if quick else 20000
+    n = 3000 if quick else 20000
     g = apigen.ApiGen(ctx.rng.fork('api'))
     cases = load_corpus()
     for i in range(n):
